@@ -137,6 +137,13 @@ func init() {
 		[]Stage{en("c19bloom", 16, 60, nil), en("c18table", 16, 40, prm("bloom_only", true))},
 		[]Stage{en("c19bloom", 16, 900, prm("full32", true)), en("c18table", 16, 300, prm("bloom_only", true, "full_grid", true))})
 
+	planTable["C04"] = enumPlan("exploration",
+		"Every sequence of up to 2 (quick) / 3 (thorough) pending writes out of 20 (Set, Delete, SetEntry with user meta and a future expiry, SetEntry with a past expiry; over keys {a, a\\x00, ab, b, \\xff}) inside a read-write transaction on top of each of 4 committed snapshots (empty; values in a deeper level / L0 / memtable with a tombstone; two versions of every key; tombstones over deeper values, value-log values, newest commit exactly at the read timestamp). After the sequence: Get of every key (Value and ValueCopy, user meta, expiry, version) and iterators in both directions x AllVersions x Prefix {none,a,ab} x SinceTs {0, readTs-1, readTs}, from Rewind and from Seek to every key and 4 probes, equal the reference overlay (pending entry shadows the snapshot at version readTs; deletion and expiry hide the key). Every iterator created before a later write is walked at the end and must not contain that write; a transaction begun before and one begun after the writes never see them.",
+		"Normal-mode on-disk DB; the transaction is discarded after each case so the snapshot is shared.",
+		"nested enumeration, shortest sequences first; distinct = distinct (snapshot, write sequence)",
+		[]Stage{en("c04ryow", 16, 90, prm("len", 2))},
+		[]Stage{en("c04ryow", 16, 1200, prm("len", 3))})
+
 	planTable["C05"] = enumPlan("exploration",
 		"Databases: every subset of <= 2 (quick; plus 4 prefix-chain triples) / <= 3 (thorough) keys of the universe {a, a\\x00, a\\xff, ab, b, \\xff\\xff} x one of 5 version histories per key (v | v v' | v del | del v | v del v') x every placement of the global write order into 4 storage layers (a deeper level with several small tables, two L0 tables, the memtable; quick: cut points from a 4-value grid, thorough: every cut), inline and value-log values, bloom filters on, plus the internal end-of-transaction keys. Per database: direction x AllVersions x InternalAccess x Prefix {none,a,ab,b,a\\xff} x 6 (readTs, SinceTs) pairs, prefetch mode rotating over {off, size 0/1/2/100}: Rewind and Seek to every universe key and 9 gap probes (12 with internal access) walked to the end, Rewind after Seek, NewKeyIterator for every universe key, Valid/ValidForPrefix agreement; each item's key, version, value (Value and ValueCopy), user meta and deleted flag compared with a sorted-list reference model.",
 		"Managed-mode on-disk DB so that versions and read timestamps are chosen; seeks outside the iterator's own prefix are not compared (unspecified).",
